@@ -17,6 +17,8 @@ import HtaVerif.Model.C13
 import HtaVerif.Model.C16
 import HtaVerif.Model.C08
 import HtaVerif.Spec.C08
+import HtaVerif.Model.C09
+import HtaVerif.Model.C10
 /-!
 `htadrv` — line protocol driver. One JSON request per input line, one JSON answer per
 output line. Imports only `Model/*` and `Spec/*` (core Lean), never a proof file.
@@ -369,6 +371,50 @@ def handle (j : Json) : Except String Json := do
     let rank := fun (n : C08.NodeId) => ((rk.find? fun p => p.1 == n).map (·.2)).getD 0
     return Json.mkObj [("topo", Json.bool (C08.checkTopo es rank)), ("weights", Json.bool (C08.checkWeights rs es)),
       ("forward", Json.bool (C08.checkForward rs es)), ("types", Json.bool (C08.checkTypes rs es))]
+  | "c09" =>
+    let es ← (← getArr (← field j "edges")).toList.mapM fun v => do
+      let a ← getArr v
+      return ({ src := (← getInt a[0]!).toNat, dst := (← getInt a[1]!).toNat, w := ← getInt a[2]! } : C09.WEdge)
+    let order := (← intList (← field j "order")).map Int.toNat
+    let path := (← intList (← field j "path")).map Int.toNat
+    let tsl ← (← getArr (← field j "ts")).toList.mapM fun v => do
+      let a ← getArr v
+      return ((← getInt a[0]!).toNat, ← getInt a[1]!)
+    let ts := fun (n : Nat) => ((tsl.find? fun p => p.1 == n).map (·.2)).getD 0
+    let d := C09.dp es order
+    let D := C09.best d
+    let pot := C09.checkPotential es (C09.distOf d) D order
+    let w := C09.pathWeight es path
+    let mk := match path with
+      | [] => false
+      | a :: rest => decide (w ≤ ts ((a :: rest).getLast (by simp)) - ts a)
+    return Json.mkObj [("is_path", Json.bool (C09.isPath es path)), ("weight", jInt w), ("best", jInt D),
+      ("potential_ok", Json.bool pot), ("within_makespan", Json.bool mk),
+      ("n_path_edges", jInt (C09.pathEdges es path).length),
+      ("span_bounded", Json.bool (es.all fun e => decide (e.w ≤ ts e.dst - ts e.src)))]
+  | "c10" =>
+    -- crit: the implementation's critical edges as [srcEv,srcStart,dstEv,dstStart]
+    let rs ← rows (← field j "rows")
+    let ann ← getStr (← field j "annotation")
+    let iS ← getInt (← field j "i_start")
+    let iE ← getInt (← field j "i_end")
+    let zl ← getBool (← field j "zero_launch")
+    let crit ← (← getArr (← field j "crit")).toList.mapM fun v => do
+      let a ← getArr v
+      return ((⟨← getInt a[0]!, ← getBool a[1]!⟩ : C08.NodeId), (⟨← getInt a[2]!, ← getBool a[3]!⟩ : C08.NodeId))
+    match C08.window rs ann iS.toNat iE.toNat with
+    | none => return Json.mkObj [("window", Json.null)]
+    | some w =>
+      let (clipped, g) := C08.build rs w zl
+      let edges := crit.filterMap fun (a, b) => g.edges.find? fun e => e.src == a && e.dst == b
+      match C10.breakdown clipped g edges with
+      | none => return Json.mkObj [("raises", Json.bool true), ("found", jInt edges.length)]
+      | some out =>
+        let rowsJ := out.map fun r => Json.arr #[match r.ev with | some v => jInt v | none => Json.null, jInt r.dur,
+          Json.str (etyStr r.ty), Json.str r.boundBy]
+        let cls := (C10.classSums out).map fun (k, v) => Json.arr #[Json.str k, jInt v]
+        return Json.mkObj [("found", jInt edges.length), ("rows", Json.arr rowsJ.toArray), ("classes", Json.arr cls.toArray),
+          ("total", jInt (C10.totalDur out))]
   | _ => throw s!"unknown op {op}"
 
 partial def loop (hin hout : IO.FS.Stream) : IO Unit := do
